@@ -11,7 +11,7 @@ from collections import Counter
 import asyncstdlib as A
 
 from ..loop import run_finalizers, CTX, drive, Driver
-from ..probes import Item, SrcState, Plan, make_source
+from ..probes import JobItem, Item, SrcState, Plan, make_source
 
 ID = "C07"
 LEVEL = "exploration"
@@ -39,6 +39,7 @@ RULE += (' Also: a scope context created over a live handle and entered after th
 RULE += (" Also: a handle closed while the owner's own read of the underlying iterator is in flight; empty slices that still skip (islice 2,2 / 3,1 / 2,0,3) on shared handles.")
 RULE += (' Also: the underlying iterator fails once through a handle, which is then closed and must be silent.')
 RULE += (' Also: an exception thrown into a CLOSED handle reaches nothing (class sources with athrow but no asend included).')
+RULE += (' Also: streams whose items are awaitable jobs (never awaited by a handle); aggregations that reject an item (dict over non-pairs) stop right there.')
 ASSUMPTIONS = ["laziness of the tools themselves is C05's concern; here the stdlib twin predicts how many items a tool takes",
                "athrow on a LIVE handle is not part of the property's operation list and is not generated; athrow on a closed handle is"]
 EXHAUSTIVE_SUBSPACES = 'all histories of length <= 3 (thorough: 4) over a 13-operation alphabet'
@@ -252,9 +253,19 @@ TOOLS = {
     "islice_3_1": ("iter", lambda h: A.islice(h, 3, 1), lambda it: itertools.islice(it, 3, 1)),
     "islice_2_0_3": ("iter", lambda h: A.islice(h, 2, 0, 3), lambda it: itertools.islice(it, 2, 0, 3)),
     "reduce": ("agg", lambda h: A.reduce(lambda a, b: a, h, None), lambda it: __import__("functools").reduce(lambda a, b: a, it, None)),
+    # an aggregation that REJECTS an item (not a key/value pair): it stops right there, like the counterpart - what
+    # follows the rejected item is still on the shared handle
+    "dict_rejects_item": ("agg", lambda h: A.dict(h), lambda it: dict(it)),
+    "dict_rejects_later_item": ("agg", lambda h: A.dict(A.chain([(0, 0)], h)), lambda it: dict(itertools.chain([(0, 0)], it))),
+    "set_items": ("agg", lambda h: A.set(h), lambda it: set(it)),
+    "tuple_items": ("agg", lambda h: A.tuple(h), lambda it: tuple(it)),
+    "sorted_items": ("agg", lambda h: A.sorted(h, key=lambda x: x.key), lambda it: sorted(it, key=lambda x: x.key)),
+    "max_items": ("agg", lambda h: A.max(h, key=lambda x: x.key, default=None), lambda it: max(it, key=lambda x: x.key, default=None)),
     "sum_items": ("agg", lambda h: A.sum(h, Item(0, "s")), lambda it: sum(it, Item(0, "s"))),
 }
 TOOL_NAMES = list(TOOLS)
+# tools whose own callable hands back one of the items as its result
+JOB_RESULT_TOOLS = {"groupby_keys", "map2_last", "map2_first", "accumulate_fail", "accumulate", "sum_items", "reduce", "reduce_fail"}
 
 
 def gen_history(rng, maxops=12):
@@ -327,7 +338,8 @@ def cases(tier, seed, shard, nshards):
                                        "susp": susp, "via": via, "reader": "owner"}
     rng = random.Random(f"C07-{seed}-{shard}")
     for _ in range(N_RANDOM[tier] // nshards):
-        yield {"ops": gen_history(rng), "flav": rng.choice(FLAVS), "keys": [rng.randrange(4) for _ in range(rng.randint(0, 9))]}
+        yield {"ops": gen_history(rng), "flav": rng.choice(FLAVS), "keys": [rng.randrange(4) for _ in range(rng.randint(0, 9))],
+               "jobs": rng.random() < 0.2}
 
 
 class CountIt:
@@ -362,9 +374,12 @@ def run_history(case, stats, scoped=None):
     """Shared by C07 (scoped=None) and C08 (scoped = nesting/exit description)."""
     CTX.reset()
     keys = case["keys"]
-    st = SrcState(0, [Item(k, (0, i), truth=k != 0) for i, k in enumerate(keys)], Plan(), log=False)
+    # (some streams carry awaitable jobs as items: payload for the owner, nothing a handle has any business awaiting)
+    mk = (lambda k, i: (JobItem if i % 2 else Item)(k, (0, i), truth=k != 0)) if case.get("jobs") else \
+        (lambda k, i: Item(k, (0, i), truth=k != 0))
+    st = SrcState(0, [mk(k, i) for i, k in enumerate(keys)], Plan(), log=False)
     under = make_source(st, case["flav"])
-    model = CountIt([Item(k, (0, i), truth=k != 0) for i, k in enumerate(keys)])
+    model = CountIt([mk(k, i) for i, k in enumerate(keys)])
     viols = []
     head = f"borrow under={case['flav']} keys={keys} ops={case['ops']}"
     has_asend = case["flav"] in ("async_gen", "async_class_full", "async_class_asend", "async_class_bare_full")
@@ -616,6 +631,8 @@ def run_history(case, stats, scoped=None):
                 parent.append(None if src is under else op[1])
             elif kind == "tool":
                 _, name, h, j, ending = op
+                if case.get("jobs") and name in JOB_RESULT_TOOLS:
+                    continue  # (a callable RETURNING an awaitable item is asynchronous by the library's rule)
                 h = h if h < len(handles) else 0
                 tkind, amake, smake = TOOLS[name]
                 counters[f"tool_{name}"] += 1
